@@ -6,7 +6,12 @@ class C12(Check):
     prop_file = "theories/Properties/Properties_C12.v"
     theorems = ("C12_exactly_one_sender", "C12_root_has_no_sender", "C12_all_triggered",
                 "C12_children_distinct", "C12_children_in_range",
-                "C12_arrival_exactly_once", "C12_arrival_terminates", "C12_stale_recheck_refuted")
+                "C12_arrival_exactly_once", "C12_arrival_terminates", "C12_stale_recheck_refuted",
+                "C12_children_are_the_code")
+    gen = ({"file": "parsec/mca/termdet/user_trigger/termdet_user_trigger_module.c",
+            "fns": ["parsec_termdet_signal_termination"],
+            "locals": ["parsec_termdet_signal_termination:my_rank,nb_children,child,real_child"],
+            "out": "theories/Gen/Gen_usertrig.v"},)
     comp = "usertrig"
     extract_file = "theories/Extract/Extract_UserTrig.v"
     extracted = ("usertrig",)
